@@ -36,7 +36,7 @@ ASSUMPTIONS = [
 ]
 RULE = ("early stopping: exhaustive call histories over the alphabet {0, eps/2, eps, 2eps, 1} for the validation error x one "
         "training-error crossing position (or none; the non-crossing training error sits exactly on eps) x patience 1..4 with "
-        "validation samples, all 2^L training patterns without (quick: L<=6, thorough: L<=7 and a seeded fifth of L=8), eps in "
+        "validation samples, all 2^L training patterns without (quick: L<=6, thorough: L<=7 and a seeded tenth of L=8), eps in "
         "{1e-6, 2^-10}; random longer histories with arbitrary values, arbitrary learner counts and non-finite errors; "
         "full fits of gboost and linear models on random small datasets with every reported statistic recomputed from the stored "
         "models. A history is non-trivial when it contains an accepted and a rejected call (judged by the python oracle's replay); "
@@ -362,10 +362,10 @@ def gen_es(rng, tier):
                 k += 1
                 ops.append(f"es a {f2h(EPS_LIST[k % 2])} {pat} {1 + k % 2} 0 {w}")
     if tier == "thorough":
-        # a seeded fifth of the length-8 layer
+        # a seeded tenth of the length-8 layer
         syms = "01234"
         for vs in itertools.product(syms, repeat=8):
-            if rng.below(5) != 0:
+            if rng.below(10) != 0:
                 continue
             base = "".join(vs)
             for p in range(-1, 8):
@@ -425,7 +425,7 @@ def _task_loss(rng):
 
 def gen_fit(rng, tier):
     ops = []
-    for _ in range(30 if tier == "quick" else 300):
+    for _ in range(30 if tier == "quick" else 120):
         task, loss = _task_loss(rng)
         samples = rng.range(24, 90)
         d, ncat = rng.range(1, 4), rng.range(0, 2)
@@ -440,7 +440,7 @@ def gen_fit(rng, tier):
             rng.choice(["gboost", "gboost", "tboost"]), shrink,
             rng.choice(["off", "off", "subsample", "bootstrap", "wei_loss_bootstrap", "wei_grad_bootstrap"]),
             ",".join(protos), f2h(rng.choice([0.0, 0.05, 0.3, 1.0])), rng.choice([10, 16, 100])))
-    for _ in range(20 if tier == "quick" else 200):
+    for _ in range(20 if tier == "quick" else 80):
         task, loss = _task_loss(rng)
         smooth = loss in ("mse", "cauchy", "s-classnll", "s-logistic", "s-exponential", "s-squared-hinge")
         model = rng.choice(["ordinary", "ordinary", "lasso", "ridge", "elastic_net"])
